@@ -260,6 +260,7 @@ func checkCorrelation(ap *intermediate.AggregationProcess, f FlowDef, x *XFlow, 
 		// correlated fields then hold is not something the statements speak about
 		return ""
 	}
+	cs, cd := f.Supplied()
 	em := r.Record.GetElementMap()
 	str := func(name, s, d string) string {
 		got, _ := em[name].(string)
@@ -277,8 +278,8 @@ func checkCorrelation(ap *intermediate.AggregationProcess, f FlowDef, x *XFlow, 
 	}
 	checks := []string{
 		str("sourcePodName", "pod-src", ""), str("destinationPodName", "", "pod-dst"),
-		str("sourcePodNamespace", f.CorrS.SrcNS, f.CorrD.SrcNS), str("sourceNodeName", f.CorrS.SrcNode, f.CorrD.SrcNode),
-		str("destinationPodNamespace", f.CorrS.DstNS, f.CorrD.DstNS), str("destinationNodeName", f.CorrS.DstNode, f.CorrD.DstNode),
+		str("sourcePodNamespace", cs.SrcNS, cd.SrcNS), str("sourceNodeName", cs.SrcNode, cd.SrcNode),
+		str("destinationPodNamespace", cs.DstNS, cd.DstNS), str("destinationNodeName", cs.DstNode, cd.DstNode),
 	}
 	for _, d := range checks {
 		if d != "" {
@@ -299,20 +300,20 @@ func checkCorrelation(ap *intermediate.AggregationProcess, f FlowDef, x *XFlow, 
 		return ""
 	}
 	u16, _ := em["destinationServicePort"].(uint16)
-	if d := num("destinationServicePort", int64(u16), int64(f.CorrS.SvcPort), int64(f.CorrD.SvcPort)); d != "" {
+	if d := num("destinationServicePort", int64(u16), int64(cs.SvcPort), int64(cd.SvcPort)); d != "" {
 		return d
 	}
 	i32, _ := em["ingressNetworkPolicyRulePriority"].(int32)
-	if d := num("ingressNetworkPolicyRulePriority", int64(i32), int64(f.CorrS.Priority), int64(f.CorrD.Priority)); d != "" {
+	if d := num("ingressNetworkPolicyRulePriority", int64(i32), int64(cs.Priority), int64(cd.Priority)); d != "" {
 		return d
 	}
 	// one-byte correlate fields (rule actions)
 	u8a, _ := em["ingressNetworkPolicyRuleAction"].(uint8)
-	if d := num("ingressNetworkPolicyRuleAction", int64(u8a), int64(f.CorrS.IngAct), int64(f.CorrD.IngAct)); d != "" {
+	if d := num("ingressNetworkPolicyRuleAction", int64(u8a), int64(cs.IngAct), int64(cd.IngAct)); d != "" {
 		return d
 	}
 	u8b, _ := em["egressNetworkPolicyRuleAction"].(uint8)
-	if d := num("egressNetworkPolicyRuleAction", int64(u8b), int64(f.CorrS.EgrAct), int64(f.CorrD.EgrAct)); d != "" {
+	if d := num("egressNetworkPolicyRuleAction", int64(u8b), int64(cs.EgrAct), int64(cd.EgrAct)); d != "" {
 		return d
 	}
 	cn := "destinationClusterIPv4"
@@ -321,7 +322,7 @@ func checkCorrelation(ap *intermediate.AggregationProcess, f FlowDef, x *XFlow, 
 	}
 	gip, _ := em[cn].(net.IP)
 	zero := gip == nil || gip.IsUnspecified()
-	s, d := f.CorrS.Cluster, f.CorrD.Cluster
+	s, d := cs.Cluster, cd.Cluster
 	switch {
 	case s == "" && d == "":
 		if !zero {
